@@ -7,6 +7,7 @@ package main
 
 import (
 	"fmt"
+	"os"
 	"go/constant"
 	"go/token"
 	"go/types"
@@ -102,6 +103,8 @@ type Exec struct {
 	obsNames []string
 	obsTerms []*Node
 	crcSeen  []crcRec
+	yieldBudget int
+	inYield  bool
 	bounds   map[*Node]ival
 	nRangeDecided int
 	decimals map[*Node][]*Node
@@ -356,7 +359,12 @@ func (e *Exec) runHarness(fn *ssa.Function) (end pathEnd) {
 				e.flushAsserts()
 				return
 			}
-			panic(r)
+			if os.Getenv("VERIF_CRASH") != "" {
+				panic(r)
+			}
+			// an engine fault is an engine limit, never a verdict
+			end = pathEnd{EndUnsupported, fmt.Sprintf("engine fault: %v", r) + e.where()}
+			return
 		}
 	}()
 	e.call(fn, nil, nil, nil)
@@ -1395,7 +1403,7 @@ func (e *Exec) doGo(fr *Frame, g *ssa.Go) {
 		}
 	}
 	e.spawned = append(e.spawned, name)
-	if e.cfg.GoRunMatch != "" && strings.Contains(name, e.cfg.GoRunMatch) {
+	if e.cfg.GoRunMatch != "" && strings.HasSuffix(name, e.cfg.GoRunMatch) {
 		thunk()
 		return
 	}
@@ -1908,9 +1916,28 @@ func (e *Exec) chanRecv(ch ChanVal, blocking bool) (Value, bool) {
 		return e.zero(ch.c.et), false
 	}
 	if blocking {
+		if e.yield() {
+			return e.chanRecv(ch, blocking)
+		}
 		panic(pathEnd{EndDeadlock, "receive would block" + e.where()})
 	}
 	return nil, false
+}
+
+// yield: the running goroutine is about to block; give the queued goroutines
+// a turn (cooperative scheduling, one legal schedule). Reports whether any of
+// them made progress.
+func (e *Exec) yield() bool {
+	if e.inYield || len(e.goQueue) == 0 || e.yieldBudget <= 0 {
+		return false
+	}
+	e.yieldBudget--
+	e.inYield = true
+	defer func() { e.inYield = false }()
+	before := e.steps
+	nq := len(e.goQueue)
+	e.eng.intercepts["verif:verifRunGoroutines"](e, nil, nil)
+	return len(e.goQueue) != nq || e.steps-before > 200*nq
 }
 
 func (e *Exec) chanReady(ch ChanVal, send bool) bool {
@@ -1950,6 +1977,9 @@ func (e *Exec) doSelect(fr *Frame, x *ssa.Select) Value {
 		if !x.Blocking {
 			res[0] = t.Const(64, ^uint64(0))
 			return res
+		}
+		if e.yield() {
+			return e.doSelect(fr, x)
 		}
 		panic(pathEnd{EndDeadlock, "select would block" + e.where()})
 	}
